@@ -6497,3 +6497,100 @@ def c17_heartbeat_period_is_kept(env):
 
 
 REGISTRY.setdefault("C17", []).append(c17_heartbeat_period_is_kept)
+
+
+# ---- C11: the peer's handle a link answers to is the one in the LATEST attach -----------------------------------
+
+
+def c11_input_handle_follows_the_attach(env):
+    o = Obligation("c11_a_link_adopts_the_handle_of_the_attach_it_just_received", "C11")
+    o.desc = "SenderLink / ReceiverLink::on_incoming_attach (first attach and every resume after a detach): whenever the attach is accepted far enough to touch the link, the link's input handle -- under which the session files the link, stamps its outgoing transfers for the disposition routing table and routes the peer's frames -- becomes Some(the handle of THIS attach), whatever handle the link remembered from an earlier attachment (the peer frees and reuses handle numbers across detach / re-attach)"
+    fns = []
+    n = 0
+    i_h = env.fidx("Attach", "handle")
+
+    def m_from(ex_, st, callee, args, argvals, dty):
+        a = mir.Agg("InputHandle")
+        src = argvals[0]
+        if isinstance(src, mir.Agg) and src.get(0) is not None:
+            a[0] = src[0]
+        elif z3.is_expr(src):
+            a[0] = src
+        else:
+            return None
+        return a
+
+    def replay(m):
+        return "scn resume_with_new_handle", (lambda js: js.get("panic") or not js["send_after_resume_settled"])
+
+    for role, pat in (("sender", r"^sender_link::<impl at [^>]*>::on_incoming_attach$"), ("receiver", r"^receiver_link::<impl at [^>]*>::on_incoming_attach$")):
+        fn = env.fn(pat)
+        fns.append(fn.name)
+        txt = "\n".join(t for b in fn.blocks.values() for t in (b[0] + [b[1]]))
+        fm = re.search(r"\(\(\*_1\)\.(\d+): (std::option::)?Option<(endpoint::)?InputHandle>\)", txt)
+        if not fm:
+            # no direct store into the field: the handle is set some other way (get_or_insert_with, a helper ...)
+            f_in = env.fidx("Link", "input_handle")
+        else:
+            f_in = int(fm.group(1))
+        ex = env.executor(max_visits=2)
+        ex.max_paths = 6000
+        # helpers that take &mut self after the handle is stored: executed as "does not touch the input handle", which
+        # is checked on their own MIR bodies (no store into that field)
+        helpers = r"::handle_unsettled_in_attach$|::properties_mut::<"
+
+        def m_helper(ex_, st, callee, args, argvals, dty):
+            r_ = mir.Agg("helper-result")
+            ex_.new_discr(st, r_, "helper")
+            return r_
+
+        ex.models = [(r"^<(endpoint::)?InputHandle as From<(fe2o3_amqp_types::)?(definitions::)?Handle>>::from$", m_from), (helpers, m_helper)]
+        for hn, hf in env.fns.items():
+            if re.search(r"^" + role + r"_link::<impl at [^>]*>::handle_unsettled_in_attach$|^link::<impl at [^>]*>::properties_mut$", hn):
+                fns.append(hn)
+                stores = [t for b in hf.blocks.values() for t in b[0] if re.match(r"\s*\(\(\*_1\)\.%d: " % f_in, t)]
+                o.prove(f"{role}:{_short_callee(hn)}:leaves-the-input-handle-alone", [], z3.BoolVal(not stores), replay=replay)
+        L = mir.Agg("link")
+        old = mir.Agg("Option<InputHandle>")
+        old_d = z3.BitVec(f"{role}.pre.input_handle.is_some", 64)
+        old["#d"] = old_d
+        sm = mir.Agg("Some")
+        ih = mir.Agg("InputHandle")
+        old_v = BV32(f"{role}.pre.input_handle")
+        ih[0] = old_v
+        sm[0] = ih
+        old[("as", "Some")] = sm
+        L[f_in] = old
+        A = mir.Agg("attach")
+        H_ = mir.Agg("Handle")
+        new_v = BV32(f"{role}.attach.handle")
+        H_[0] = new_v
+        A[i_h] = H_
+        paths = ex.run(fn, {"_1": mir.Ref(("@self",), True), "@self": L, "_2": A})
+        hyp = ex.assumptions + [z3.ULE(old_d, 1)]
+        for i, p in enumerate(paths):
+            if p.end != "return" or not isinstance(p.ret, mir.Agg) or "#d" not in p.ret:
+                continue
+            H = hyp + p.cond + [p.ret["#d"] == 0]
+            s = z3.Solver()
+            s.add(*H)
+            if s.check() != z3.sat:
+                continue
+            n += 1
+            cur = p.locals["@self"].get(f_in)
+            d = cur.get("#d") if isinstance(cur, mir.Agg) else None
+            some = cur.get(("as", "Some")) if isinstance(cur, mir.Agg) else None
+            inner = some.get(0) if isinstance(some, mir.Agg) else None
+            val = inner.get(0) if isinstance(inner, mir.Agg) else None
+            if d is None or val is None or not z3.is_expr(val):
+                o.prove(f"{role}:path{i}:the-handle-is-the-one-of-this-attach", H, z3.BoolVal(False), replay=replay)
+            else:
+                o.prove(f"{role}:path{i}:the-handle-is-the-one-of-this-attach", H, z3.And(d == 1, val == new_v), replay=replay)
+    o.functions = fns
+    o.bounds = ["one call each; the link remembering no handle or any 32-bit handle; every 32-bit handle in the attach; every path on which the attach is accepted (Ok)"]
+    o.assumes = ["InputHandle::from(Handle) keeps the number"]
+    o.cover("accepting paths", [z3.BoolVal(n > 1)])
+    return [o]
+
+
+REGISTRY.setdefault("C11", []).append(c11_input_handle_follows_the_attach)
